@@ -584,7 +584,7 @@ def check_witness_guards(ctx, rule):
             pts = []
             if payload[0] == 'call' and 'vec' in payload[1].lower() or is_call(payload, '[T]::into_vec', 'slice::into_vec'):
                 pass
-            stored = _stored_points(payload)
+            stored = _stored_points(payload, b, R)
             for l in lits:
                 if l[0] == 'true' and is_call(l[1], 'AffFuncBase::contains'):
                     pt = l[1][2][1]
@@ -606,13 +606,21 @@ def check_witness_guards(ctx, rule):
         ctx.lost(rule, 'construction of NodeState::FeasibleWitness')
 
 
-def _stored_points(payload):
-    """Points that end up in the stored Vec: vec![x] boxes an array [x]."""
+def _stored_points(payload, b=None, R=None):
+    """Points that end up in the stored Vec: `vec![x]` is lowered to writing the array [x] into a fresh
+    box which is then converted with box_assume_init_into_vec_unsafe."""
     out = [payload]
     for x in walk(payload):
         if isinstance(x, tuple) and x and x[0] == 'agg' and x[1] == 'array':
             out.extend(x[2])
-    # box write: vec![x] is lowered to writing [x] into a fresh box; collect any array aggregates reachable
+    if b is not None and payload[0] == 'call' and payload[1].endswith('box_assume_init_into_vec_unsafe') and payload[2]:
+        box = payload[2][0]
+        for i, j, st in b.stmts():
+            if st['k'] == 'assign' and st['place']['proj'] and st['rv']['k'] == 'agg' and st['rv']['agg']['k'] == 'array':
+                tgt = R.place(st['place'], i, j)
+                if any(x == box for x in walk(tgt)):
+                    v = R.rvalue(st['rv'], i, j)
+                    out.extend(v[2])
     return out
 
 
